@@ -8,7 +8,8 @@ ID = 'C04'
 TARGETS = ['MindsVerif.Props.C04']
 THEOREMS = ['MindsVerif.Props.C04.' + n for n in (
     'C04_scan_quote', 'C04_decode_partial', 'C04_scan_dquote', 'C04_decode_dquote_partial',
-    'C04_decode_simple_partial', 'C04_encode_partial', 'C04_identifier_partial',
+    'C04_decode_simple_partial', 'C04_encode_partial', 'C04_roundtrip_mindsdb_partial', 'C04_roundtrip_simple_partial',
+    'C04_witness_roundtrip', 'C04_codec_decode', 'C04_codec_encode', 'C04_codec_roundtrip', 'C04_identifier_partial',
     'C04_identifier_mindsdb', 'C04_identifier_mysql', 'C04_identifier_sqlite',
     'phi4h_mindsdb', 'phi4h_mysql', 'phi4h_sqlite', 'C04_integer', 'phi4_mindsdb', 'phi4_mysql', 'phi4_sqlite',
     'C04_witness_edge', 'C04_witness_escbs', 'C04_witness_run', 'C04_witness_simple',
@@ -37,9 +38,17 @@ def kf_match(k, f):
     return cls in f.get('classes', [])
 
 
+def codec_fixed():
+    """docs/proposed_fixes/C04_2.diff is live in the tree under test (one-scan decoder shared by the three parsers)"""
+    from mindsdb_sql.parser import utils as U
+    return hasattr(U, 'unescape_string')
+
+
 def literal_classes(dialect, q, items):
     """KF classes (predicates on the spec reading of the source literal)"""
     out = []
+    if codec_fixed():
+        return out      # the repaired codec has no excluded class: every failure is new
     if dialect == 'mindsdb':
         if lexh.has_esc_backslash(items):
             out.append('escaped-backslash')
@@ -87,7 +96,7 @@ def probe_print_value(dialect, v):
     sp = lexh.spec_scan(txt, "'", True)
     fails = []
     if sp is None or sp[1] != '' or lexh.denote(sp[0], "'") != v:
-        cls = ['print-backslash'] if not lexh.enc_ok(v) else []
+        cls = ['print-backslash'] if not lexh.enc_ok(v) and not codec_fixed() else []
         fails.append(dict(kind='encode', desc='Constant(%r).to_string() = %r does not denote the value' % (v, txt),
                           dialect='-', value=v, text=txt, classes=cls,
                           **{'class': 'encode/' + ('+'.join(cls) or 'NEW')}))
@@ -199,6 +208,8 @@ def run(chk):
     for k in chk.kf:
         if k.get('status') == 'open' and k.get('signature', {}).get('class') == 'unreserved-keyword':
             kfwords = k['signature']['words']
+    FIXED = codec_fixed()               # which codec model is tied to the live code (Model/Lex vs Model/Codec)
+    READ = 'read2 %s %s' if FIXED else 'read %s %s'
     n_scan = 5 if quick else 6          # exhaustive length for scanner / spec correspondence
     n_parse = 4 if quick else 5         # exhaustive length through parse_sql
     if broken and quick:
@@ -229,13 +240,13 @@ def run(chk):
     for b in bodies_scan + rand_bodies:
         for q, (op, sop, dbl) in KIND_Q.items():
             for d in ('mindsdb', 'sqlite'):
-                ask(('scan', d, q, q + b), '%s %s %s' % (op, d, enc(q + b)))
+                ask(('scan', d, q, q + b), '%s %s %s' % (op, 'mindsdb' if FIXED else d, enc(q + b)))
             ask(('spec', q, q + b), '%s - %s' % (sop, enc(q + b)))
     # (ii) decode model vs parse_sql, closed literals
     for b in bodies_parse + rand_bodies:
         for q in KIND_Q:
             for d in DIALECTS:
-                ask(('read', d, q, q + b + q), 'read %s %s' % (d, enc(q + b + q)))
+                ask(('read', d, q, q + b + q), READ % (d, enc(q + b + q)))
     # … and literals generated from the *specification* items (adjacent escapes of every kind, up to 4 / 5 items)
     import itertools
     ITEMS = {"'": ['a', '"', "\\'", '\\"', '\\\\', '\\n', "''"], '"': ['a', "'", "\\'", '\\"', '\\\\', '\\n']}
@@ -244,11 +255,11 @@ def run(chk):
             for t in itertools.product(its, repeat=k):
                 b = 'x' + ''.join(t) + 'y' if k >= 3 else ''.join(t)
                 for d in DIALECTS:
-                    ask(('read', d, q, q + b + q), 'read %s %s' % (d, enc(q + b + q)))
+                    ask(('read', d, q, q + b + q), READ % (d, enc(q + b + q)))
     # (iii) encoders
     values = bodies_parse + rand_bodies
     for v in values:
-        ask(('enc', v), 'enc - %s' % enc(v))
+        ask(('enc', v), '%s - %s' % ('enc2' if FIXED else 'enc', enc(v)))
     # identifiers: parts over word pools (every keyword word of every dialect included)
     rngi = common.rng_for(chk.seed, 'C04/ident')
     ident_cases = []
@@ -503,6 +514,7 @@ def run(chk):
                                     'readString .mindsdb (srcLit items ++ rest) = some (denote items, rest)'))
     for meta, o in list(zip(metas, outs or []))[:2]:
         chk.samples.append(dict(case=str(meta)[:200], model=o[:200]))
+    chk.samples.append(dict(codec_model='Model/Codec.lean (C04_2 live)' if FIXED else 'Model/Lex.lean (pinned codec)'))
     return chk.finish(assumptions=ASSUME, extra=dict(impl_probe=dict((k, v) for k, v in dist.items() if k.startswith('P'))))
 
 
